@@ -78,6 +78,7 @@ Definition run_C08 (i : term) : term :=
     let inf := info_of (gn i 1) in TL [TS (printable_name inf); TS (sprint_info inf)]
   else if String.eqb op "det" then TL [TZ 1]
   else if String.eqb op "ser" then TL [TZ 1; TZ 1; TZ 1]
+  else if String.eqb op "parse" then TL [TZ 1; TZ 1; TZ 1; TZ 1]
   else if String.eqb op "ent" then TL [TZ 1]
   else if String.eqb op "e2e-cli" then
     (* one outcome, whatever the run; accepted iff no multi-choice group and exactly one format flag *)
@@ -162,6 +163,7 @@ Definition spec_C08 (i o : term) : bool :=
     end
   else if String.eqb op "det" then gz (gn o 0) =? 1
   else if String.eqb op "ser" then forallb (fun z => z =? 1) (gzs o) && Nat.eqb (List.length (gl o)) 3
+  else if String.eqb op "parse" then forallb (fun z => z =? 1) (gzs o) && Nat.eqb (List.length (gl o)) 4
   else if String.eqb op "ent" then gz (gn o 0) =? 1
   else if String.eqb op "e2e-cli" then gz (gn o 0) =? 1
   else if String.eqb op "e2e-session" || String.eqb op "e2e-web" then
